@@ -297,6 +297,21 @@ class Ctx:
                 translator.regenerate_guard()
             except Exception as e:  # the guard region is no longer in a form the translator understands
                 self.broken_obligation(f'translator (thread guard): {type(e).__name__}: {e}')
+        if 'AeicModel.Generated.Kernels' in deps:
+            try:
+                from . import pykern
+
+                for name, msg in pykern.regenerate().items():
+                    self.broken_obligation(f'kernel translator: {msg}')
+                for name, msg in pykern.LAST_STALE.items():
+                    # a limitation of the translator, not evidence about the code: the kernel keeps its last good translation and
+                    # is still compared with the running implementation on sampled inputs (harness/kernels.py)
+                    self.extra.setdefault('source_tie_stale', {})[name] = msg
+                if pykern.LAST_STALE:
+                    self.notes.append(f'source tie degraded to sampling for {len(pykern.LAST_STALE)} kernel(s) the translator can no '
+                                      f'longer express (last good translation kept): {sorted(pykern.LAST_STALE)[:8]}')
+            except Exception as e:
+                self.broken_obligation(f'kernel translator: {type(e).__name__}: {e}')
         targets = ['aeic_driver']
         if (LEAN_DIR / 'AeicProofs' / 'Properties' / f'{self.pid}.lean').exists():
             targets.append(f'AeicProofs.Properties.{self.pid}')
